@@ -297,18 +297,27 @@ func ruleC09SyncBeforeClose(r *Run, p *Program, rule string) {
 			continue
 		}
 		key := c.e.Recv.Key()
-		w := &IPWalk{P: p, Visit: func(n Node) bool {
-			e := fsEventOf(n)
-			return isFileEvent(e, "Sync") && e.Recv.Key() == key
+		// one walk with the path state "" (not synced) / "S" (synced) / "U" (closed without a Sync before; sticky), so
+		// that what is known on the path to the Close (which step failed) still holds on the way to the return
+		closeNode := c.n
+		w := &IPWalk{P: p, Transfer: func(n Node, st string) string {
+			if st == "U" {
+				return st
+			}
+			if e := fsEventOf(n); isFileEvent(e, "Sync") && e.Recv.Key() == key {
+				return "S"
+			}
+			if n == closeNode && st != "S" {
+				return "U"
+			}
+			return st
 		}}
 		w.Run(root, nil)
-		if w.Reached[c.n] {
+		if w.States[c.n][""] {
 			// error-path closes (after a failed write) are not on a success path of Close: check that a success return is reachable after it
-			w2 := &IPWalk{P: p}
-			w2.Run(root, []Node{c.n})
 			succ := false
-			for n := range w2.Reached {
-				if w2.rootSuccess(n) {
+			for n, sts := range w.RootSuccStates {
+				if sts["U"] && w.rootSuccess(n) {
 					succ = true
 				}
 			}
@@ -555,6 +564,16 @@ func ruleErrorFatal(entries ...string) ruleFn {
 					r.ok(rule, ek+":"+construct, p.Pos(c.Pos()), "reviewed exception: "+why, false)
 					continue
 				}
+				// steps that cannot fail here, and dropped errors the errs rule accepts as benign (close of a read-only
+				// handle, clean-up that runs only when the operation already fails)
+				if errAlwaysNilAt(c) {
+					continue
+				}
+				if errResultUnused(c) {
+					if ok, _ := benignDrop(p, c); ok {
+						continue
+					}
+				}
 				// steps below an excepted call share its exception (their failure surfaces as that call's failure)
 				under := false
 				for cx := s.Ctx; cx != nil && cx.Parent != nil; cx = cx.Parent {
@@ -748,7 +767,14 @@ func ruleCloseOrder(r *Run, p *Program, rule string) {
 		}
 		instrsOf(g, func(in ssa.Instruction) {
 			cc := callOf(in)
-			if cc != nil && isInvoke(cc, "fs.LockFile", "Unlock") {
+			asValue := false
+			if mc, ok := in.(*ssa.MakeClosure); ok {
+				// db.lock.Unlock taken as a method value (a step of a step table)
+				if bf, ok := mc.Fn.(*ssa.Function); ok && strings.HasPrefix(bf.Synthetic, "bound method wrapper") && bf.Object() != nil && bf.Object().Name() == "Unlock" && len(mc.Bindings) == 1 && typeName(mc.Bindings[0].Type()) == "fs.LockFile" {
+					asValue = true
+				}
+			}
+			if asValue || (cc != nil && isInvoke(cc, "fs.LockFile", "Unlock")) {
 				n++
 				r.check(funcKey(g) == "(*pogreb.DB).Close", rule, funcKey(g)+"->LockFile.Unlock", p.Pos(in.Pos()), "only DB.Close releases the lock file", "the lock file is released outside DB.Close: an interrupted session would look cleanly closed")
 			}
@@ -927,7 +953,19 @@ func isNilTestOfSegElem(c *Cond) bool {
 	if !ok || !eq {
 		return false
 	}
-	return (isNilConst(c.Y) && isSegmentsElem(c.X)) || (isNilConst(c.X) && isSegmentsElem(c.Y))
+	isElem := func(v ssa.Value) bool {
+		if isSegmentsElem(v) {
+			return true
+		}
+		// the loop variable lives in a cell (it is captured by a closure): what was stored into it
+		for _, s := range sources(v) {
+			if isSegmentsElem(s) {
+				return true
+			}
+		}
+		return false
+	}
+	return (isNilConst(c.Y) && isElem(c.X)) || (isNilConst(c.X) && isElem(c.Y))
 }
 
 func isLoopBound(c *Cond) bool {
